@@ -287,7 +287,10 @@ impl Compactor {
 	}
 
 	fn open_table(&self, table_id: u64, table_path: &Path) -> Result<Arc<Table>> {
-		let file = SysFile::open(table_path)?;
+		// The merged table must be durable before the manifest switches to it and
+		// the input tables are removed (a memtable flush does the same).
+		let file = crate::vfs::open_for_sync(table_path)?;
+		file.sync_all()?;
 		let file: Arc<dyn File> = Arc::new(file);
 		let file_size = file.size()?;
 
